@@ -93,7 +93,7 @@ Proof.
     { intros (A & B & C). split.
       - exists m, m'. rewrite A, B, Hd, Hg, D0, G0. auto.
       - unfold no_qerror in *. rewrite C. rewrite Q0 in Hq. exact Hq. }
-    destruct (0 <? fb); intro H; injection H as <- _ _; apply Hres; cbn; auto.
+    destruct (0 <? fp); intro H; injection H as <- _ _; apply Hres; cbn; auto.
   - intro H; injection H as <- _ _. split.
     + exists 0%nat, 0%nat. cbn [skipn repeat]. rewrite app_nil_r, D0, G0. split; [reflexivity|lia].
     + unfold no_qerror. rewrite Q0. auto.
